@@ -2483,7 +2483,20 @@ impl<'a, B: Bindgen> Generator<'a, B> {
                 TypeDefKind::Resource => unreachable!(),
                 TypeDefKind::Unknown => unreachable!(),
 
-                TypeDefKind::FixedLengthList(..) => todo!(),
+                TypeDefKind::FixedLengthList(element, size) => {
+                    // Mirrors `lift`: the flat operands of the elements
+                    // follow each other on the stack.
+                    let flat_per_elem = flat_types(self.resolve, element, None).unwrap().len();
+                    let flatsize = flat_per_elem * (*size as usize);
+                    let mut operands = self
+                        .stack
+                        .drain(self.stack.len() - flatsize..)
+                        .collect::<Vec<_>>();
+                    for _ in 0..*size {
+                        self.stack.extend(operands.drain(..flat_per_elem));
+                        self.deallocate(element, what);
+                    }
+                }
             },
         }
     }
@@ -2615,7 +2628,15 @@ impl<'a, B: Bindgen> Generator<'a, B> {
                 TypeDefKind::Future(_) => unreachable!(),
                 TypeDefKind::Stream(_) => unreachable!(),
                 TypeDefKind::Unknown => unreachable!(),
-                TypeDefKind::FixedLengthList(_, _) => {}
+                TypeDefKind::FixedLengthList(element, size) => {
+                    // Elements are stored inline, one after the other.
+                    let elem_size = self.bindgen.sizes().size(element);
+                    let mut elem_offset = offset;
+                    for _ in 0..*size {
+                        self.deallocate_indirect(element, addr.clone(), elem_offset, what);
+                        elem_offset += elem_size;
+                    }
+                }
             },
         }
     }
